@@ -293,7 +293,7 @@ class Basis(np.ndarray):
                     elem = self.view(np.ndarray)
                 offdiag_nonzero = elem[~np.eye(self.d, dtype=bool)].nonzero()
                 diag_equal = np.diag(elem) == elem[0, 0]
-                if diag_equal.all() and not offdiag_nonzero[0].any():
+                if diag_equal.all() and offdiag_nonzero[0].size == 0:
                     # Element is (proportional to) the identity, this we define
                     # as 'traceless' since a complete basis cannot have only
                     # traceless elems.
